@@ -57,9 +57,24 @@ package ocidir
 //@   effect $fetched = (err == nil)
 //@   requires lock-held: $held(OCIDir.mu)
 //@ func (*OCIDir).manifestPut(ctx, r, m, opts) (err)
-//@   prop C06, C04
-//@   entry-assume !$renamed
+//@   prop C06, C04, C07
+//@   entry-assume !$renamed && !$putRenamed && !$putIndexed && !$putReferrers
 //@   requires lock-held: $held(OCIDir.mu)
+// C07: a put that reports success has performed every step itself (so repeating an interrupted
+// put completes it): manifest file renamed into place, index updated, referrers recorded. The
+// $put... ghosts are written only by the on-call hooks below, i.e. by calls made directly in this
+// function's body (not by the nested put of the referrers index).
+//@   on-call Rename: $putRenamed = (result == nil)
+//@   on-call Rename: $putRenamedTo = arg1
+//@   on-call updateIndex: $putIndexed = (result == nil)
+//@   on-call referrerPut: $putReferrers = (result == nil)
+//@   ensures success-means-file-in-place: err == nil ==> $putRenamed && $putRenamedTo == file
+//@   ensures success-means-index-updated: err == nil ==> $putIndexed
+//@   ensures success-means-referrer-recorded: err == nil && ok && $ret(GetSubject, 1) == nil && mDesc != nil && mDesc.Digest != "" ==> $putReferrers
+//@ ghost $putRenamed bool
+//@ ghost $putRenamedTo string
+//@ ghost $putIndexed bool
+//@ ghost $putReferrers bool
 //@ func (*OCIDir).updateIndex(r, d, child, locked) (err)
 //@   prop C06
 //@   requires lock-held-when-claimed: locked ==> $held(OCIDir.mu)
@@ -84,7 +99,7 @@ package ocidir
 //@   name updateIndex/manifestPut
 //@   in ~/scheme/ocidir
 //@   infunc \)\.manifestPut$
-//@   requires manifest-file-in-place-first: $renamed
+//@   requires manifest-file-in-place-first: $renamed && $renamedTo == caller.file
 //@ callsite os.Remove(name)
 //@   prop C04, C07
 //@   name os.Remove/ManifestDelete
